@@ -564,6 +564,7 @@ def check(ctx):
     check_exit(ctx)
     check_raise_args(ctx)
     check_kwargs_forwarding(ctx)
+    check_gate_message(ctx)
     check_debug(ctx)
     check_authorize(ctx)
     check_stateless(ctx, 'C07.STATELESS')
@@ -573,6 +574,52 @@ def check(ctx):
     # do_raise / exc mode (= C08.CREDS)
     from . import c08
     ctx.borrow('C07.SURFACE', c08.check_creds, only=['C08.CREDS'])
+
+
+def check_gate_message(ctx):
+    """The credentials handed to enforce() are whatever the caller has: the
+    type gate exists to refuse them with InvalidContextObject.  A message
+    built as `'... %s ...' % creds` hands the object to `%` as its argument
+    list when it is a tuple (TypeError: not all arguments converted / not
+    enough arguments) - the documented exception is never reached."""
+    prog = ctx.prog
+    enf = prog.func(POLICY + '.Enforcer.enforce')
+    creds_p = enf.params[3]
+    n = 0
+    for b in ast.walk(enf.node):
+        if not (isinstance(b, ast.BinOp) and isinstance(b.op, ast.Mod)):
+            continue
+        left = b.left
+        if isinstance(left, ast.Call) and left.args:
+            left = left.args[0]                     # _('...') % x
+        if not (isinstance(left, ast.Constant) and isinstance(
+                left.value, str)):
+            continue
+        n += 1
+        bare = isinstance(b.right, ast.Name) and b.right.id == creds_p
+        if bare:
+            # only where the object has not passed the gate: in the branch
+            # that refuses it (an `else` of the isinstance tests)
+            from ..util import parent_map
+            pm = parent_map(enf.node)
+            cur, anc, refused = b, pm.get(b), False
+            while anc is not None:
+                if isinstance(anc, ast.If) and any(
+                        cur is x for x in anc.orelse) and \
+                        'isinstance(%s' % creds_p in U(anc.test):
+                    refused = True
+                cur, anc = anc, pm.get(anc)
+            bare = refused
+        ctx.ob('C07.SURFACE', not bare, ctx.where(enf.module, b), enf.qual,
+               'message %s' % U(b)[:70],
+               'the message arguments are given as a tuple / mapping '
+               'written out' if not bare else
+               'the credentials object is the bare right operand of `%%`: '
+               'credentials that are a tuple (a namedtuple token, `()`) are '
+               'unpacked as the argument list and the formatting raises '
+               'TypeError before %s can be raised'
+               % 'InvalidContextObject')
+    return n
 
 
 def check_kwargs_forwarding(ctx):
